@@ -260,6 +260,7 @@ def collect(ctx: Ctx):
 
 
 def run(ctx: Ctx) -> int:
+    session.clause_reachability(ctx, "C09")
     session.mc(ctx, 3, 2, name="C09_mc_v3_all", calls=2, hs="HSAll", data="DataAll", coverage=True)
     session.mc(ctx, 2, 3, name="C09_mc_v2_all", calls=3, fly=3)
     runs = collect(ctx)
